@@ -99,13 +99,15 @@ func c11Render(seq []ref.Sym) (string, []int) {
 }
 
 type c11Obs struct {
-	Err   *impl.ErrObs
-	Panic *impl.Panic
-	Chain []string
-	Tree  []string
+	Err      *impl.ErrObs
+	Panic    *impl.Panic
+	Chain    []string
+	Tree     []string
+	Expanded []string // tree after PASTE expansion (second context resolution), nil if that phase failed
+	ExpErr   string
 }
 
-func c11Run(text string, dir string, disk bool) (o c11Obs) {
+func c11Run(text string, dir string, disk bool, expand bool) (o c11Obs) {
 	defer func() {
 		if r := recover(); r != nil {
 			o.Panic = impl.CatchPanic(r)
@@ -125,6 +127,22 @@ func c11Run(text string, dir string, disk bool) (o c11Obs) {
 	if je == nil {
 		o.Chain = c.VerifContextChain()
 		o.Tree = c.VerifTree(false, false)
+		// the expansion phase resolves every context a second time on a fresh core
+		var f2 *fs.File
+		if disk {
+			f2 = reader.Read(filepath.Join(dir, "root.jst"))
+		} else {
+			f2 = fs.NewFile("root.jst", text)
+		}
+		if !expand {
+			return o
+		}
+		c2 := core.NewJApiCore(f2)
+		if je2 := c2.VerifScanAndExpand(); je2 != nil {
+			o.ExpErr = je2.Msg
+		} else {
+			o.Expanded = c2.VerifTree(true, false)
+		}
 	}
 	return o
 }
@@ -162,7 +180,13 @@ func c11Compare(seq []ref.Sym, dir string) (key, what string, outcome string) {
 		}
 	}
 	text, lines := c11Render(seq)
-	o := c11Run(text, dir, disk)
+	noMacro := true
+	for _, s := range seq {
+		if s.Kind == "MACRO" || s.Kind == "PASTE" {
+			noMacro = false
+		}
+	}
+	o := c11Run(text, dir, disk, noMacro)
 	if o.Panic != nil {
 		return o.Panic.Key(), fmt.Sprintf("panic %s on %q", o.Panic.Value, text), "panic"
 	}
@@ -198,6 +222,21 @@ func c11Compare(seq []ref.Sym, dir string) (key, what string, outcome string) {
 		wantPre := preorder(a.Parents, wantTree)
 		if strings.Join(wantPre, " ") != strings.Join(o.Tree, " ") {
 			return "tree", fmt.Sprintf("directive tree differs: implementation %v, reference %v:\n%s", o.Tree, wantPre, text), "accept"
+		}
+		// without MACRO/PASTE the tree rebuilt by the expansion phase must be the same tree
+		hasMacro := false
+		for _, s := range seq {
+			if s.Kind == "MACRO" || s.Kind == "PASTE" {
+				hasMacro = true
+			}
+		}
+		if !hasMacro {
+			if o.ExpErr != "" {
+				return "expanded-rejected", fmt.Sprintf("accepted by the scan phase, rejected when the contexts are resolved again for PASTE expansion: %s\n%s", o.ExpErr, text), "accept"
+			}
+			if strings.Join(wantPre, " ") != strings.Join(o.Expanded, " ") {
+				return "expanded-tree", fmt.Sprintf("directive tree after the expansion phase differs: implementation %v, reference %v:\n%s", o.Expanded, wantPre, text), "accept"
+			}
 		}
 		return "", "", "accept"
 	}
